@@ -45,6 +45,19 @@ CHECKS = {
             "(in)equality; the answer is symmetric and equals DFA equality of the determinisations. Specification model: the union-find "
             "bookkeeping of NFA.__eq__ is not modelled, its boolean is compared on generated pairs incl. built-equivalent pairs.",
             "", "7/C09"),
+    "C14": ("Coq theorems about an executable specification model (filter over the dictionary-order enumeration) + proved exactness of "
+            "the finiteness test + differential correspondence (exact word lists) against /repo via the extracted model",
+            "Proved for all valid DFAs, all start words (None, empty, rejected, unreadable, longer than max_length - nothing is assumed "
+            "about them), both strictness values, all windows (unbounded sizes): the dictionary order is a decidable strict total order "
+            "(prefix first, then first differing symbol); the model's successor list is strictly increasing, duplicate-free and contains "
+            "exactly the accepted words of the window after start (or equal to it when not strict); predecessors likewise in decreasing "
+            "order; that sequence is unique; strict=False adds exactly the start word; successor/predecessor are the head = least/greatest "
+            "element, None iff the set is empty; predecessors are refused iff the language is infinite (isfinite model proved exact, no "
+            "other error possible); without max_length the state-count bound loses no word of a finite language. Specification model: the "
+            "explicit stack machine of DFA.successors is not modelled; its output (whole generated list, single-step result, exception "
+            "kind) is compared literally with the proved model on generated DFAs x keys x starts x windows x directions.",
+            "Symbols are numbered by rank under the user's key (injective keys only). Open known findings: start string with a symbol "
+            "outside the alphabet (KeyError), empty alphabet (IndexError).", "7/C14"),
 }
 
 PENDING = {}
